@@ -25,7 +25,10 @@ type opStep struct {
 	Anchor       oracle.Anchor
 	AnchoredType string
 	nextU, nextR *gen.Key
-	PostBuild    func(h *histCtx, s *opStep) // runs after the request was assembled (e.g. to show the same JWS to the stack in another operation first)
+	// EnvelopeAnchorOrigin, when set, is what the anchoring envelope (AnchoredOperation.AnchorOrigin) says instead of echoing the
+	// request's own anchor origin: the envelope is not signed, the state follows the request
+	EnvelopeAnchorOrigin interface{}
+	PostBuild            func(h *histCtx, s *opStep) // runs after the request was assembled (e.g. to show the same JWS to the stack in another operation first)
 }
 
 // hostileValidators refuse every anchor origin and every time window (and count how often they are asked).
@@ -490,6 +493,9 @@ var failClasses = []failClass{
 		s.Spec.PayloadEdit = func(p map[string]interface{}) { p["revealValue"] = honest }
 		s.Facts.ParseOK = false
 	}},
+	{"envelope-names-another-anchor-origin (valid: the request decides)", "cr", func(h *histCtx, s *opStep) {
+		s.EnvelopeAnchorOrigin = fw.Pick(h.r, []interface{}{"https://envelope.example/other-origin", map[string]interface{}{"domain": "envelope.example"}, 7.0})
+	}},
 	{"signed-suffix-missing", "d", func(h *histCtx, s *opStep) {
 		s.Spec.PayloadEdit = func(p map[string]interface{}) { delete(p, "didSuffix") }
 		s.Facts.ParseOK = false
@@ -593,6 +599,13 @@ func planStep(h *histCtx, typ byte, class string, prevTime uint64, modelDoc map[
 	r := h.r
 	s := &opStep{Class: class, Anchor: randAnchor(r, prevTime), AnchoredType: typeName(typ), Facts: oracle.ValidFacts(typeName(typ))}
 	patches := histPatches(h, modelDoc)
+	// "valid" means valid under this protocol: the canonical delta stays below the configured size limit
+	for tries := 0; len(oracle.MustJCS(patches)) > int(h.proto.MaxDeltaSize)-400; tries++ {
+		patches = histPatches(h, modelDoc)
+		if tries > 6 {
+			patches = []interface{}{gen.PAddAka("did:example:small")}
+		}
+	}
 	switch typ {
 	case 'c':
 		spec, ch := gen.NewChainCreate(r, h.code, h.keyType, patches)
@@ -604,7 +617,7 @@ func planStep(h *histCtx, typ byte, class string, prevTime uint64, modelDoc map[
 		}
 		spec.AnchorOrigin = randAnchorOrigin(r)
 		if r.Chance(1, 4) {
-			spec.CreateType = "t" + fmt.Sprint(r.Intn(9))
+			spec.CreateType = fw.Pick(r, []string{"t" + fmt.Sprint(r.Intn(9)), "did-entity-type", "schema.org/Organization", "urn:example:iot-device", "type with blanks", "caf\u00e9", "1"})
 		}
 		s.Spec = spec
 		s.nextU, s.nextR = ch.UpdateKey, ch.RecoverKey
@@ -631,7 +644,9 @@ func planStep(h *histCtx, typ byte, class string, prevTime uint64, modelDoc map[
 			s.Spec.Signer = s.Spec.Signer.WithNonce(r, int(h.proto.NonceSize))
 		}
 		if r.Chance(1, 3) {
-			s.Spec.Headers = map[string]interface{}{"alg": s.Spec.Signer.Alg(), "kid": fmt.Sprintf("key-%d", r.Intn(10))}
+			// the key id header is free text as far as the protocol goes: plain ids, fragments, DID URLs, long values
+			s.Spec.Headers = map[string]interface{}{"alg": s.Spec.Signer.Alg(), "kid": fw.Pick(r, []string{fmt.Sprintf("key-%d", r.Intn(10)), "#update-key", "did:example:123#key-1",
+				"https://example.com/keys/1?x=y", strings.Repeat("k", 80), "key with blanks", "cl\u00e9-1", "1"})}
 		}
 		t := int64(s.Anchor.Time)
 		switch r.Intn(6) {
@@ -669,6 +684,14 @@ func planStep(h *histCtx, typ byte, class string, prevTime uint64, modelDoc map[
 
 // anchoredOf builds the library's AnchoredOperation for a step.
 func anchoredOf(s *opStep, suffix string) *operation.AnchoredOperation {
+	a := anchoredOfPlain(s, suffix)
+	if s.EnvelopeAnchorOrigin != nil {
+		a.AnchorOrigin = s.EnvelopeAnchorOrigin
+	}
+	return a
+}
+
+func anchoredOfPlain(s *opStep, suffix string) *operation.AnchoredOperation {
 	return &operation.AnchoredOperation{
 		Type:                 operation.Type(s.AnchoredType),
 		UniqueSuffix:         suffix,
@@ -834,6 +857,21 @@ func runHistoryProto(c *fw.Case, plan []planEntry, keyType string, code uint64, 
 		if mode == "C12" {
 			snapRM, snapOp = deepCopy(actual), deepCopy(anch)
 		}
+		if r.Chance(1, 5) {
+			// the operation being applied is also listed among the state's unpublished operations (it was seen before it was
+			// anchored), together with others and not in the last place: the lists pass through untouched
+			twin := anchoredOf(s, suffix)
+			extra := randOpList(r)
+			unpubs = append(append(append([]*operation.AnchoredOperation{}, unpubs...), twin), extra...)
+			unpubs = append(unpubs, &operation.AnchoredOperation{Type: operation.TypeUpdate, UniqueSuffix: suffix, OperationRequest: []byte("other-unpublished"), TransactionTime: 3})
+			cp := *actual
+			cp.UnpublishedOperations = unpubs
+			actual = &cp
+			if mode == "C12" {
+				snapRM = deepCopy(actual)
+			}
+			c.Count("applied-operation-also-listed-as-unpublished", 1)
+		}
 		c.Journal(s.Built.Request)
 		got, err := st.Applier.Apply(anch, actual)
 		c.Evals(1)
@@ -929,7 +967,7 @@ func runHistoryProto(c *fw.Case, plan []planEntry, keyType string, code uint64, 
 	c.Sample(map[string]interface{}{"key_type": keyType, "code": code, "outcomes": outcomes, "first_request": trace[0].(map[string]interface{})["request"]})
 }
 
-const invalidPatchVariants = 26
+const invalidPatchVariants = 28
 
 // invalidPatchDelta installs a delta whose second patch breaks one patch-validation constraint (variant 0..25).
 func invalidPatchDelta(h *histCtx, s *opStep, variant int) {
@@ -1019,6 +1057,15 @@ func invalidPatchDelta(h *histCtx, s *opStep, variant int) {
 		bad["publicKeyJwk"].(map[string]interface{})["kid"] = "key1" // an id elsewhere does not replace the key's own id
 	case 25:
 		badPatch = map[string]interface{}{"action": "replace", "document": map[string]interface{}{"publicKeys": []interface{}{edKey()}, fw.Pick(h.r, []string{"id", "@context", "controller", "alsoKnownAs"}): nil}}
+	case 26:
+		// every string entry of an endpoint list is a URI, also the ones after an endpoint object
+		sv := gen.RandService(h.r, "svc1")
+		sv["serviceEndpoint"] = []interface{}{map[string]interface{}{"uri": "https://ok.example"}, fw.Pick(h.r, []string{"not a uri", "", "://x"})}
+		badPatch = gen.PAddServices(sv)
+	case 27:
+		sv := gen.RandService(h.r, "svc1")
+		sv["serviceEndpoint"] = fw.Pick(h.r, []string{"https://example.com/path#%zz", "https://example.com/a#frag\x7f", "https://example.com/#\x01"})
+		badPatch = gen.PAddServices(sv)
 	}
 	if badPatch == nil {
 		badPatch = gen.PAddKeys(bad)
